@@ -9,7 +9,7 @@ import logging
 from typing import Any
 
 import numpy as np
-from scipy.linalg import eig
+from scipy.linalg import schur
 from scipy.linalg import svd
 
 from bqskit.compiler.basepass import BasePass
@@ -239,8 +239,11 @@ class BlockZXZPass(BasePass):
 
         # We can find V,D^2 by performing an eigen decomposition of
         # U_1 @ U_2†
-        d2, V = eig(U_1 @ U_2.conj().T)
-        d = np.sqrt(d2)
+        # (Schur form: for a degenerate spectrum, eig's eigenvectors are not
+        # orthonormal; the Schur vectors of a unitary matrix always are, and
+        # its Schur form is diagonal.)
+        d2, V = schur(U_1.numpy @ U_2.numpy.conj().T, output='complex')
+        d = np.sqrt(np.diag(d2))
         D = np.diag(d)
 
         # We can then multiply to solve for W
